@@ -9,8 +9,11 @@ package main
 // the lock, client time-outs 50 + 400 ms: the wait for the lock exceeds the time-outs, the
 // exchange itself does not); some attach a recording ClientHooks object that is deliberately NOT
 // goroutine-safe (the library calls hooks only while it holds its lock).
-// Outcome: ok [whole, own, no_panic, serialised, hooks_atomic], or err [7] when the case did not
-// finish within concHangBound (deadlock / livelock).  Every call is made under recover: a panic inside the
+// A further goroutine makes FAILING Connect calls on the shared, connected client (the dial function
+// fails on demand: plain error, already cancelled context, error together with a typed-nil conn);
+// a failed Connect has to leave the client exactly as it was.  Every case ends with a final Close.
+// Outcome: ok [whole, own, no_panic, serialised, hooks_atomic, connect_atomic], or err [7] when the
+// case did not finish within concHangBound (deadlock / livelock).  Every call is made under recover: a panic inside the
 // library is counted, the case goes on and is emitted.
 // Meant to be built with -race (the race detector is part of what the run exercises); works
 // without it as well.
@@ -18,6 +21,7 @@ package main
 import (
 	"bytes"
 	"context"
+	"errors"
 	"net"
 	"runtime"
 	"sort"
@@ -220,6 +224,7 @@ func hooksAtomic(kind int, h *concHooks, okReqs map[string]int) bool {
 
 type concOpts struct {
 	n, m, nCloses int
+	nFailed       int           // failing Connect calls made while the client is connected and shared
 	latency       time.Duration // slow device
 	readTimeout   time.Duration
 	writeTimeout  time.Duration
@@ -252,6 +257,18 @@ func concRun(kind int, r *rng, o concOpts) concResult {
 		delays[i] = r.intn(36) // ms; serial client only: lands inside its 30 ms write-to-read pause
 	}
 	sort.Ints(thresholds)
+	if kind == 2 {
+		o.nFailed = 0 // the serial client has no Connect
+	}
+	failAt := make([]int, o.nFailed)
+	failHow := make([]int, o.nFailed)
+	for i := range failAt {
+		failAt[i] = r.intn(n*m + 1)
+		failHow[i] = r.intn(3) // 0 plain error, 1 context already cancelled, 2 error with a typed-nil conn
+	}
+	sort.Ints(failAt)
+	// without Close / Connect from the closers nothing may fail: every call has to be served
+	strict := nCloses == 0
 
 	var cmu sync.Mutex
 	var conns []*memConn
@@ -272,10 +289,22 @@ func concRun(kind int, r *rng, o concOpts) concResult {
 	ctx := context.Background()
 	var client concDoer
 	var connect func()
+	failConnect := func(how int) error { return errors.New("no Connect") }
 	switch kind {
 	case 0, 1:
 		conf := modbus.ClientConfig{ReadTimeout: o.readTimeout, WriteTimeout: o.writeTimeout, Hooks: hooksIface,
 			DialContextFunc: func(ctx context.Context, address string) (net.Conn, error) {
+				// same contract as net.Dialer.DialContext: no conn when the context is done
+				if err := ctx.Err(); err != nil {
+					return nil, err
+				}
+				switch address {
+				case "fail:plain":
+					return nil, errors.New("dial refused")
+				case "fail:typednil":
+					var none *memConn // a nil pointer inside a non-nil interface value
+					return none, errors.New("dial refused")
+				}
 				return newConn(), nil
 			}}
 		var c *modbus.Client
@@ -287,6 +316,17 @@ func concRun(kind int, r *rng, o concOpts) concResult {
 		connect = func() { _ = c.Connect(ctx, "mem") }
 		connect()
 		client = c
+		failConnect = func(how int) error {
+			switch how {
+			case 1:
+				cctx, cancel := context.WithCancel(ctx)
+				cancel()
+				return c.Connect(cctx, "mem")
+			case 2:
+				return c.Connect(ctx, "fail:typednil")
+			}
+			return c.Connect(ctx, "fail:plain")
+		}
 	default:
 		port := newConn()
 		opts := []modbus.SerialClientOptionFunc{modbus.WithSerialReadTimeout(o.readTimeout)}
@@ -297,7 +337,7 @@ func concRun(kind int, r *rng, o concOpts) concResult {
 		connect = port.reopen // the operator plugs the device in again; not a library call
 	}
 
-	var panics, completed, abort int32
+	var panics, completed, abort, failedDone, failedNoErr int32
 	var rmu sync.Mutex // results of the calls
 	var wg sync.WaitGroup
 	start := make(chan struct{})
@@ -367,10 +407,36 @@ func concRun(kind int, r *rng, o concOpts) concResult {
 			}
 		}()
 	}
+	// failing Connect calls while the client is connected and shared
+	if o.nFailed > 0 {
+		wg.Add(1)
+		go func() {
+			defer wg.Done()
+			<-start
+			for i, th := range failAt {
+				for int(atomic.LoadInt32(&completed)) < th && atomic.LoadInt32(&abort) == 0 {
+					runtime.Gosched()
+				}
+				if atomic.LoadInt32(&abort) != 0 {
+					return
+				}
+				guarded(func() {
+					if failConnect(failHow[i]) == nil {
+						atomic.AddInt32(&failedNoErr, 1)
+					}
+				})
+				atomic.AddInt32(&failedDone, 1)
+			}
+		}()
+	}
 	close(start)
 	// watchdog: a deadlocked or livelocked case is emitted as a hang instead of blocking the run
 	done := make(chan struct{})
-	go func() { wg.Wait(); close(done) }()
+	go func() {
+		wg.Wait()
+		guarded(func() { _ = client.Close() }) // the final Close of the case
+		close(done)
+	}()
 	hang := false
 	select {
 	case <-done:
@@ -381,11 +447,14 @@ func concRun(kind int, r *rng, o concOpts) concResult {
 
 	// ---- judge the record ----
 	want := map[string]int{}
-	own := true
+	own, allServed := true, true
 	var callVals []V
 	rmu.Lock()
 	for g := 0; g < n; g++ {
 		for _, c := range calls[g] {
+			if c.status != 0 {
+				allServed = false
+			}
 			if c.status == 0 {
 				want[string(c.bytes)]++
 				if !bytes.Equal(c.reply, concReply(kind, c.bytes)) {
@@ -396,15 +465,16 @@ func concRun(kind int, r *rng, o concOpts) concResult {
 		}
 	}
 	rmu.Unlock()
-	whole, serialised := true, true
+	whole, serialised, lastClosed := true, true, false
 	var logVals, connVals []V
 	cmu.Lock()
 	all := append([]*memConn{}, conns...)
 	cmu.Unlock()
 	for _, c := range all {
-		log, overlaps, midClose := c.snapshot()
+		log, overlaps, midClose, closed := c.snapshot()
 		logVals = append(logVals, B(log))
-		connVals = append(connVals, L(I(overlaps), I(midClose)))
+		connVals = append(connVals, L(I(overlaps), I(midClose), Bool(closed)))
+		lastClosed = closed
 		if overlaps != 0 || midClose != 0 {
 			serialised = false
 		}
@@ -453,12 +523,17 @@ func concRun(kind int, r *rng, o concOpts) concResult {
 	if o.hooked {
 		hk = 1
 	}
+	// connect_atomic: a failed Connect left the client as it was -- the failing calls did return an
+	// error, the final Close closed the connection dialled last (the one the client must still hold),
+	// and, when nobody closes or reconnects, every call was served
+	nf, nfNoErr := int(atomic.LoadInt32(&failedDone)), int(atomic.LoadInt32(&failedNoErr))
+	connectAtomic := lastClosed && nfNoErr == 0 && (!strict || allServed)
 	args := L(I(kind), L(logVals...), L(callVals...), L(connVals...), I(np),
-		L(I(int(o.latency/time.Millisecond)), I(hk)), L(traceVals...))
+		L(I(int(o.latency/time.Millisecond)), I(hk)), L(traceVals...), L(Bool(strict), I(nf), I(nfNoErr)))
 	if hang {
 		return concResult{name, args, vErr(I(7)), true}
 	}
-	return concResult{name, args, vOk(Bool(whole), Bool(own), Bool(np == 0), Bool(serialised), Bool(atomicHooks)), false}
+	return concResult{name, args, vOk(Bool(whole), Bool(own), Bool(np == 0), Bool(serialised), Bool(atomicHooks), Bool(connectAtomic)), false}
 }
 
 func concEmit(res concResult) {
@@ -470,15 +545,23 @@ func concEmit(res concResult) {
 
 func streamConc(seed uint64, thorough bool) {
 	r := newRng(seed ^ 0xC14C14)
-	runs, serialRuns, slowRuns := 80, 6, 6
+	runs, serialRuns, slowRuns, failRuns := 80, 6, 6, 16
 	if thorough {
-		runs, serialRuns, slowRuns = 600, 40, 40
+		runs, serialRuns, slowRuns, failRuns = 600, 40, 40, 120
 	}
 	for i := 0; i < runs && concHangs < concMaxHangs; i++ {
 		kind := i % 2
 		n := 2 + r.intn(7)  // 2..8 goroutines
 		m := 1 + r.intn(20) // 1..20 calls each
-		concEmit(concRun(kind, r, concOpts{n: n, m: m, nCloses: r.intn(6), readTimeout: concReadTimeout, hooked: i%4 >= 2}))
+		concEmit(concRun(kind, r, concOpts{n: n, m: m, nCloses: r.intn(6), nFailed: r.intn(3),
+			readTimeout: concReadTimeout, hooked: i%4 >= 2}))
+	}
+	// failed Connect while connected and shared: nobody closes or reconnects, a goroutine makes
+	// failing Connect calls; every call has to be served and the final Close has to close the
+	// one connection there is
+	for i := 0; i < failRuns && concHangs < concMaxHangs; i++ {
+		concEmit(concRun(i%2, r, concOpts{n: 2 + r.intn(5), m: 5 + r.intn(16), nCloses: 0, nFailed: 1 + r.intn(4),
+			readTimeout: concReadTimeout, hooked: i%4 >= 2}))
 	}
 	// the serial client sleeps 30 ms per exchange: few and small runs; Close (and the operator
 	// reopening the port) at several drawn points, also inside exchanges
